@@ -145,8 +145,10 @@ var tplRoutes = []struct{ name, src string }{
 	{"if", "{%% if true %%}{{ v|%s }}{%% endif %%}"},
 }
 
-// routes that are cheap enough for the full code-point sweep of the quick tier
-var coreRoutes = map[string]bool{"print": true, "apply": true, "macro": true, "include": true, "chain-after": true}
+// core routes = one per independent escaping mechanism (registered filter: print; built-in fallback:
+// fallback-noenv; macro text: macro-text, macro-text-noenv); the quick tier sweeps the code points
+// above U+3000 on these only
+var coreRoutes = map[string]bool{"print": true}
 
 func newEnv() *env {
 	e := twig.New()
@@ -428,30 +430,37 @@ func blocks(thorough bool) []block {
 	if thorough {
 		L = 6
 	}
-	bs = append(bs, block{family: "alpha", key: "alpha/len1", gen: func(f func(string)) {
+	bs = append(bs, block{family: "alpha", key: "alpha/len<=2", gen: func(f func(string)) {
 		for _, a := range alphabet {
 			f(a)
+		}
+		for _, a := range alphabet {
+			for _, b := range alphabet {
+				f(a + b)
+			}
 		}
 	}})
 	for i := range alphabet {
 		for j := range alphabet {
-			p := alphabet[i] + alphabet[j]
-			bs = append(bs, block{family: "alpha", key: fmt.Sprintf("alpha/L%d/%d%d", L, i, j), gen: func(f func(string)) {
-				// breadth first: shorter strings first
-				level := []string{p}
-				for n := 2; n <= L; n++ {
-					var next []string
-					for _, s := range level {
-						f(s)
-						if n < L {
-							for _, a := range alphabet {
-								next = append(next, s+a)
+			for k := range alphabet {
+				p := alphabet[i] + alphabet[j] + alphabet[k]
+				bs = append(bs, block{family: "alpha", key: fmt.Sprintf("alpha/L%d/%d%d%d", L, i, j, k), gen: func(f func(string)) {
+					// breadth first: shorter strings first
+					level := []string{p}
+					for n := 3; n <= L; n++ {
+						var next []string
+						for _, s := range level {
+							f(s)
+							if n < L {
+								for _, a := range alphabet {
+									next = append(next, s+a)
+								}
 							}
 						}
+						level = next
 					}
-					level = next
-				}
-			}})
+				}})
+			}
 		}
 	}
 	// 5. lengths around growth boundaries of the output buffer, and very long strings
@@ -609,10 +618,10 @@ func main() {
 		Rule: "every input of the bounded families (all code points alone and inside a?&, all byte strings of length <= 2, all strings of length <= 5 (thorough 6) over " +
 			"{< > & \" ' a é 0xFF ; #}, all pairs and triples of 23 already-escaped forms and fragments, boundary lengths up to 64 KiB, 1 MiB strings, 21 non-string values) " +
 			"x every route (16 template positions, direct ApplyFilter with the engine's / an empty / no environment, macro text with and without environment) x both names; " +
-			"a case is one block of inputs on a fresh engine; non-trivial = the block contains a significant character or a byte >= 0x80",
+			"a case is one block of inputs (<= 1111 strings) on a fresh engine; non-trivial = the block contains a significant character or a byte >= 0x80",
 		Assumptions: []string{
 			"strings longer than 1 MiB + 5 bytes and alphabet strings longer than the bound are not explored",
-			"in the quick tier code points >= U+3000 are swept on the 8 core routes only (print, chain, apply, macro, include, fallback, macro text with/without environment); the thorough tier uses all routes",
+			"in the quick tier code points >= U+3000 are swept on one route per escaping mechanism only (print tag = registered filter, ApplyFilter without environment = built-in fallback, macro text with and without environment); the thorough tier sweeps them on all routes",
 			"the text a non-string value is converted to is taken from the statement for scalars, Stringers, byte slices and named strings, and from the unfiltered print tag of the same engine for lists, maps, structs and errors",
 			"input reaches the filter as a context value; string literals written in template source are the subject of C08/C04",
 		},
